@@ -27,6 +27,7 @@ class Analysis:
             self.it.loop_bound = loop_bound
             self.rit.loop_bound = loop_bound
         self._rule_paths = {}
+        self._no_generous = set()
 
     def _share(self, other: Interp):
         other._summaries = self.it._summaries
@@ -73,15 +74,19 @@ class Analysis:
             try:
                 # generous helper inlining first; the usual limit when that explodes
                 found = None
-                for helper_paths, budget in ((24, 60000), (saved[1], None)):
+                for helper_paths, budget in ((24, 30000), (saved[1], None)):
+                    if budget is not None and callee.fn.qn in self._no_generous:
+                        continue
                     it.HELPER_PATHS, it.budget = helper_paths, budget
                     try:
                         found = it.paths_of(callee, assume, hole, which)
                         if budget is None or len(found) <= 4000:
                             break
+                        self._no_generous.add(callee.fn.qn)
                     except AnalysisError:
                         if budget is None:
                             raise
+                        self._no_generous.add(callee.fn.qn)
             finally:
                 it.loop_bound, it.HELPER_PATHS, it.budget = saved
             if len(found) > 20000:
